@@ -85,6 +85,23 @@ def gen_scenario(seed, cfg):
         term = gen.sanitize_powers(('bin', sim.pick('dual_op', ('and', 'or', 'iff', 'implies', '=', '!=')), qa, qb))
         if kind == 'pred' and term[0] == 'lit':
             kind = 'boolexpr'
+    # (drawn last again, round 16) a power with a special literal on ONE side and a reference on the
+    # other: 0 ** x, 1 ** x, -1 ** x, x ** 0 ... - shortcuts that hold for a literal partner are
+    # tempting to extend to a non-literal one, where the valuation x = 0 (always in the grid) decides
+    if sim.coin('special_power', 0.012):
+        lit = ('lit', 'num', sim.pick('sp_lit', ('0', '1', '2', '0', '0.5')))
+        if sim.coin('sp_neg', 0.2):
+            lit = ('un', '-', lit)
+        r = eg.ref(gen.NUM_FIELDS)
+        pw = ('bin', '**', lit, r) if sim.coin('sp_base', 0.7) else ('bin', '**', r, lit)
+        if sim.coin('sp_wrapped', 0.5):
+            pw = ('bin', sim.pick('sp_wrap_op', ('+', '*', '-')), pw, eg.ref(gen.NUM_FIELDS))
+        if kind == 'numexpr':
+            term = pw
+        else:
+            term = ('bin', sim.pick('sp_cmp', ('=', '!=', '<', '<=', '>', '>=')), pw,
+                    ('lit', 'num', sim.pick('sp_rhs', ('0', '1', '2'))))
+        term = gen.sanitize_powers(term)
     return {'seed': seed, 'kind': kind, 'term': term, 'policies': policies, 'valuations': vals, 'warnings': wmode,
             'digest_gen': sim.digest()}
 
